@@ -164,7 +164,10 @@ func (d MarchingCanvas) fieldBounds(f Field) (modeling.VectorInt, modeling.Vecto
 	return minCanvas, maxCanvas
 }
 
-func (d MarchingCanvas) getSection(attribute string, dataType MarchingDataType) *marchingSection {
+// getSection has a pointer receiver for the same reason as index: the parallel
+// variants call it for the second and later attributes while workers are
+// already growing the block lists.
+func (d *MarchingCanvas) getSection(attribute string, dataType MarchingDataType) *marchingSection {
 	if section, ok := d.sections[attribute]; ok {
 		if section.dataType != dataType {
 			panic(fmt.Errorf("field already exists with type: %d, can't add type %d", section.dataType, dataType))
